@@ -53,7 +53,8 @@ func (ob *Obligation) smtText(models bool, mode string) string {
 		memo := map[*Term]bool{}
 		var qf []*Term
 		for _, h := range hyps {
-			if !c.hasQuant(h, memo) {
+			// (the consistency probe of the axioms keeps the quantified ones: they are what it is about)
+			if !c.hasQuant(h, memo) || ob.Func == "axioms" {
 				qf = append(qf, h)
 			}
 		}
@@ -208,7 +209,8 @@ func discharge(ob *Obligation, dir string, timeoutMs int, confirm bool) {
 	}
 	if ob.Cover {
 		r := runSolver(context.Background(), solvers[0], file, first)
-		if r.verdict != "sat" && r.verdict != "unsat" {
+		if r.verdict != "sat" && r.verdict != "unsat" && ob.Func != "axioms" {
+			// (the axiom probe gets the short attempt only: it looks for an outright contradiction)
 			r = runSolver(context.Background(), solvers[1], file, timeoutMs)
 		}
 		ob.Verdict, ob.Solver, ob.Seconds = r.verdict, r.solver, r.secs
